@@ -117,7 +117,7 @@ func runC09(c *hx.Ctx) *hx.Outcome {
 	s.SetStarveKey([]string{"consumer", "file_handler", "app_core", "handler.go"}[t.D(4)])
 	fineGrained(c, s, o)
 	s.Budget = 96*(len(wire)+16)*(1+nonNil/2) + 8192
-	src := &env.Source{T: t, Data: wire, MaxChunk: maxChunk, ZeroReads: t.SBool(1, 4), DataWithErr: t.SBool(1, 3), Ints: readerFault}
+	src := &env.Source{T: t, Data: wire, MaxChunk: maxChunk, ZeroReads: t.SBool(1, 4), DataWithErr: t.SBool(1, 3), Ints: readerFault, PauseOneIn: []int{0, 0, 0, 3, 40}[t.S(5)]}
 	var moreSrc []*env.Source
 	for i := t.SW(7, 2, 1); i > 0; i-- {
 		_, w2, _ := genNoisyStream(c, o)
@@ -370,6 +370,10 @@ func runC13(c *hx.Ctx) *hx.Outcome {
 	s.ChooseStrategy()
 	s.SetStarveKey([]string{"consumer", "handler.go", "file-handler"}[t.D(3)])
 	fineGrained(c, s, o)
+	// no stalled goroutines here: the handler measures the silence with its own
+	// clock, so a handler frozen for minutes would see a source that resumed within
+	// the tolerance as one that did not, and the oracle would encode timing
+	s.Freeze = false
 	// a handler may legitimately re-poll every WaitTimeOnEOF until the tolerance
 	// has passed: allow for that many retries
 	polls := 0
@@ -380,7 +384,7 @@ func runC13(c *hx.Ctx) *hx.Outcome {
 		}
 	}
 	s.Budget = 96*(len(data)+16) + 20000 + 12*polls*(len(ints)+1)
-	src := &env.Source{T: t, Data: data, Ints: ints, MaxChunk: []int{1, 7, 64, 4096, 8192}[t.S(5)], DataWithErr: t.SBool(1, 3), ZeroReads: t.SBool(1, 4)}
+	src := &env.Source{T: t, Data: data, Ints: ints, MaxChunk: []int{1, 7, 64, 4096, 8192}[t.S(5)], DataWithErr: t.SBool(1, 3), ZeroReads: t.SBool(1, 4), PauseOneIn: []int{0, 0, 0, 3, 40}[t.S(5)]}
 	var got []rtcm.Message
 	closed := 0
 	returned := false
